@@ -402,7 +402,9 @@ func c01Body(s *simkit.Sim, rc *simkit.RunCtx) {
 	nearExpiry := func() bool {
 		return withExp && time.Now().After(expiresAt.Add(-6*time.Second)) && time.Now().Before(expiresAt.Add(6*time.Second))
 	}
-	event := func(e string) { sample.Events = append(sample.Events, fmt.Sprintf("+%v %s", time.Since(issuedAt).Round(time.Second), e)) }
+	event := func(e string) {
+		sample.Events = append(sample.Events, fmt.Sprintf("+%v %s", time.Since(issuedAt).Round(time.Second), e))
+	}
 
 	nev := 4 + s.D.Decide("events", 6)
 	for k := 0; k < nev && !s.Failed(); k++ {
